@@ -552,6 +552,15 @@ func vfRunCoreCheck(t *testing.T, prop string) {
 			part.Violate(vfViolation{Prop: prop, Clause: f.Clause, Detail: f.Detail, Case: i, Replay: wrote, Sig: f.Sig})
 		}
 	}
+	if env.Shard < 0 && (prop == "C05" || prop == "C06") && vfMsOwnsReplay(env) {
+		// --replay of a batch of the millisecond stage: re-run by that stage only (real clock: the schedule is not forced)
+		part := vfNewPart()
+		part.known = vfLoadKnown(env)
+		vfMsStage(env, prop, part)
+		spec := &vfSpec{Prop: prop, Level: "exploration", Rule: cp.Rule + vfMsRule[prop], NontrivSet: "nontrivial", Assumptions: append(append([]string{}, cp.Assumptions...), vfMsAssumptions...)}
+		vfFinish(t, env, spec, part, start)
+		return
+	}
 	if env.Shard < 0 && vfE2IsReplay(env.Replay) {
 		// --replay of a history recorded by the concurrent stage (E2): re-judged and re-run by that stage only
 		part := vfNewPart()
